@@ -173,14 +173,18 @@ T9 == {[Case("T9", "wrapped", <<F("a", Prim("Integer"), 0, 1)>>, <<Leaf("5")>>, 
 \* markers naming XML Schema types through a prefix that NOTHING ELSE in the document uses.  What a marker denotes (the namespace
 \* its prefix is bound to) is part of the value.  Not part of Cases (the dict protocols and the schema-driven client have no tree
 \* type): exported as the family "any".
-AnyT == [k |-> "any"]
+AnyT == [k |-> "any", name |-> "anyType"]
 XmlV(n) == <<"xml", n>>
-TreeNames == {"plain", "typed_int", "typed_bag"}
+\* typed_xsd: the marker's prefix (xsd) is bound to a namespace that a SOAP envelope declares under ANOTHER prefix
+TreeNames == {"plain", "typed_int", "typed_bag", "typed_xsd"}
+\* shared: user code returns ONE tree object wherever the value occurs (twice in one array)
+SharedTrees(c) == [x \in DOMAIN c \cup {"shared"} |-> IF x = "shared" THEN TRUE ELSE c[x]]
 Bag10 == Obj("Bag", "tns", <<F("label", Prim("Unicode"), 0, 1), F("x", AnyT, 0, 1)>>)
 T10 == {Case("T10", "wrapped", <<F("x", AnyT, 0, 1), F("n", Prim("Integer"), 0, 1)>>, <<XmlV(a), Leaf("5")>>, <<AnyT>>, <<XmlV(r)>>) : a \in TreeNames, r \in TreeNames}
        \cup {Case("T10", "wrapped", <<F("b", Bag10, 0, 1)>>, <<ObjV("Bag", <<Leaf("hello"), XmlV(a)>>)>>, <<Bag10>>, <<ObjV("Bag", <<Nil, XmlV(a)>>)>>) : a \in TreeNames}
        \cup {Case("T10", "wrapped", <<F("n", Prim("Integer"), 0, 1)>>, <<Leaf("5")>>, <<Prim("Integer"), AnyT>>, <<Leaf("5"), XmlV(r)>>) : r \in TreeNames}
-AnyCases == T10
+T10b == {SharedTrees(Case("T10", "wrapped", <<F("n", Prim("Integer"), 0, 1)>>, <<Leaf("5")>>, <<Arr(AnyT)>>, <<SeqV(<<XmlV(r), XmlV(r), XmlV("plain")>>)>>)) : r \in {"typed_bag", "plain"}}
+AnyCases == T10 \cup T10b
 
 Cases == T9 \cup T1 \cup T2 \cup T3 \cup T3b \cup T4 \cup T5 \cup T6 \cup T6b \cup T6c \cup T6d \cup T7 \cup T8
 =============================================================================
